@@ -809,7 +809,11 @@ def many_cells_sources():
 def except_list_sweep():
     """`except E as e:` bodies swept so that one member is an exact multiple of 254 bytes on one line,
     directly followed by the compiler's line-less clean-up (3.10)"""
-    return ["try:\n    x\nexcept E as e:\n    [" + "a, " * n + "]\n" for n in list(range(118, 132)) + list(range(245, 262))]
+    out = []
+    for n in list(range(120, 127)) + list(range(249, 256)):
+        out.append("try:\n    x\nexcept E as e:\n    [" + "a, " * n + "]\nc\n")
+        out.append("try:\n    a\nexcept E as e:\n    x = [" + ", ".join(["a"] * n) + "]\nc\nd\n")
+    return out
 
 
 def example_cases():
